@@ -14,6 +14,7 @@ import (
 func setPlaceholderNames(n *ast.MsgNode) {
 	// Step 1: Determine representative nodes and build preliminary map
 	var (
+		baseNames           []string // in order of first appearance
 		baseNameToRepNodes  = make(map[string][]ast.Node)
 		equivNodeToRepNodes = make(map[ast.Node]ast.Node)
 	)
@@ -35,6 +36,7 @@ func setPlaceholderNames(n *ast.MsgNode) {
 		}
 
 		if nodes, ok := baseNameToRepNodes[baseName]; !ok {
+			baseNames = append(baseNames, baseName)
 			baseNameToRepNodes[baseName] = []ast.Node{node}
 		} else {
 			var isNew = true
@@ -53,10 +55,18 @@ func setPlaceholderNames(n *ast.MsgNode) {
 	}
 
 	// Step 2: Build final maps of name to representative node
+	// (in order of appearance, so that the names do not depend on map iteration
+	// order.)  A base name that belongs to a single placeholder is used as it
+	// is; the others get a numeric suffix that skips every name already taken.
 	var nameToRepNodes = make(map[string]ast.Node)
-	for baseName, nodes := range baseNameToRepNodes {
-		if len(nodes) == 1 {
+	for _, baseName := range baseNames {
+		if nodes := baseNameToRepNodes[baseName]; len(nodes) == 1 {
 			nameToRepNodes[baseName] = nodes[0]
+		}
+	}
+	for _, baseName := range baseNames {
+		var nodes = baseNameToRepNodes[baseName]
+		if len(nodes) == 1 {
 			continue
 		}
 
